@@ -532,28 +532,62 @@ class Body:
 TRY_BRANCH = ("<std::result::Result<T, E> as std::ops::Try>::branch", "<std::option::Option<T> as std::ops::Try>::branch")
 
 
-def _project_variant(e, variant):
-    """`e as variant` where e is known to be built by constructors (an aggregate, or several definitions each of
-    which is an aggregate): only the definitions of that variant can be meant.  Anything else stays symbolic."""
+def _residual_variant(a):
+    """`?`'s error exit: `from_residual(r)` builds Err(..) of a Result / None of an Option — never the success variant."""
+    if a[0] == "call" and a[1] and "FromResidual" in a[1].get("path", "") and a[1]["path"].endswith("::from_residual"):
+        if a[1]["path"].startswith("<std::result::Result<"):
+            return "Err"
+        if a[1]["path"].startswith("<std::option::Option<"):
+            return "None"
+    return None
+
+
+def _known_ctor(e):
+    """(variant, [payload exprs]) when e is certainly built by that constructor, else None.  Understood:
+    enum aggregates; `from_residual(..)` (always Err / None); `branch(x)` for x of a known constructor
+    (Ok/Some → Continue(payload), Err/None → Break(x))."""
     if e[0] == "agg" and e[1].get("agg") == "Adt":
-        return e if e[1].get("variant") == variant else ("never", variant)
-    if e[0] == "phi" and e[2] and all(a[0] == "agg" and a[1].get("agg") == "Adt" for a in e[2]):
-        alts = [a for a in e[2] if a[1].get("variant") == variant]
-        if len(alts) == 1:
-            return alts[0]
-        if alts:
-            return ("phi", e[1], alts)
-        return ("never", variant)
-    if variant == "Continue" and e[0] == "call" and e[1] and e[1].get("path") in TRY_BRANCH and e[2]:
-        # `x?` on a value known to be built by constructors: the continue payload is the Ok/Some payload
-        inner = e[2][0]
-        want = "Ok" if "Result" in e[1]["path"] else "Some"
-        if inner[0] == "agg" or (inner[0] == "phi" and inner[2] and all(a[0] == "agg" for a in inner[2])):
-            p = _project_variant(inner, want)
-            if p[0] == "agg" and len(p[2]) == 1:
-                return ("agg", {"agg": "Adt", "adt": "std::ops::ControlFlow", "variant": "Continue", "via": "?"}, [p[2][0]])
-            if p[0] == "phi" and all(len(a[2]) == 1 for a in p[2]):
-                return ("agg", {"agg": "Adt", "adt": "std::ops::ControlFlow", "variant": "Continue", "via": "?"}, [("phi", p[1], [a[2][0] for a in p[2]])])
+        return (e[1].get("variant"), list(e[2]))
+    rv = _residual_variant(e)
+    if rv:
+        return (rv, [])
+    if e[0] == "call" and e[1] and e[1].get("path") in TRY_BRANCH and e[2]:
+        alts = _alts(e[2][0])
+        ks = [_known_ctor(a) for a in alts]
+        if ks and all(k is not None for k in ks):
+            good = [k for k in ks if k[0] in ("Ok", "Some")]
+            bad = [k for k in ks if k[0] in ("Err", "None")]
+            if good and not bad and all(len(k[1]) == 1 for k in good):
+                return ("Continue", [good[0][1][0] if len(good) == 1 else ("phi", -1, [k[1][0] for k in good])])
+            if bad and not good:
+                return ("Break", [e[2][0]])
+    return None
+
+
+def _alts(e):
+    return list(e[2]) if e[0] == "phi" else [e]
+
+
+def _project_variant(e, variant):
+    """`e as variant` where every definition of e is a known constructor: only the definitions of that variant
+    can be meant (the others are different paths).  Anything else stays symbolic."""
+    alts = _alts(e)
+    ks = [_known_ctor(a) for a in alts]
+    if alts and all(k is not None for k in ks):
+        sel = [(a, k) for a, k in zip(alts, ks) if k[0] == variant]
+        if not sel:
+            return ("never", variant)
+        outs = []
+        for a, k in sel:
+            if a[0] == "agg":
+                outs.append(a)
+            elif k[1] or k[0] in ("Continue", "Break"):
+                outs.append(("agg", {"agg": "Adt", "variant": k[0], "via": "known-constructor"}, list(k[1])))
+            else:
+                return ("downcast", e, variant)
+        if len(outs) == 1:
+            return outs[0]
+        return ("phi", e[1] if e[0] == "phi" else -1, outs)
     return ("downcast", e, variant)
 
 
@@ -573,6 +607,7 @@ def strip_refs(e):
 # calls that return (a view of) their receiver/argument unchanged
 TRANSPARENT_CALLS = {
     "<std::vec::Vec<T, A> as std::ops::Deref>::deref",
+    "std::vec::Vec::<T, A>::as_slice",
     "<std::string::String as std::ops::Deref>::deref",
     "std::string::String::as_str",
     "std::hint::must_use",
